@@ -9,6 +9,8 @@
 //        compute_distance_matrix(begin, end, table callback); centerMatrix; *= -0.5  (the three
 //        statements of methods/multidimensional_scaling.hpp embed())
 //        -> R <id> OK M <N> <N> ...
+//   CEN <id> <N> <N*N doubles, row-major, any matrix>
+//        centerMatrix(M)  -> R <id> OK M <N> <N> ...
 //   PCA <id> <N> <D> <d> <N*D doubles> <D*d doubles (projection matrix, row-major)>
 //        compute_mean; compute_covariance_matrix; project(P, mean)
 //        -> R <id> OK mean <D> 1 ... | cov <D> <D> ... | proj <N> <d> ...   (one line, '|' separated)
@@ -189,6 +191,30 @@ int main()
             DenseMatrix M = tapkee_internal::compute_distance_matrix(idx.begin(), idx.end(), dcb);
             tapkee_internal::centerMatrix(M);
             M.array() *= -0.5;
+            alarm(0);
+            std::ostringstream os;
+            os << "R " << id << " OK ";
+            put_matrix(os, "M", M);
+            puts(os.str().c_str());
+        }
+        else if (cmd == "CEN")
+        {
+            // centerMatrix on an arbitrary (not necessarily symmetric) matrix
+            int N = 0;
+            std::vector<double> v;
+            if (!(ss >> N) || N <= 0 || N > 4096 || !get_doubles(ss, (long)N * N, v))
+            {
+                printf("C %ld\nR %ld BADCASE\n", id, id);
+                continue;
+            }
+            printf("C %ld\n", id);
+            fflush(stdout);
+            alarm(10);
+            DenseMatrix M(N, N);
+            for (int i = 0; i < N; i++)
+                for (int j = 0; j < N; j++)
+                    M(i, j) = v[(size_t)i * N + j];
+            tapkee_internal::centerMatrix(M);
             alarm(0);
             std::ostringstream os;
             os << "R " << id << " OK ";
